@@ -176,7 +176,7 @@ def run(tier):
             return None
         r['files'][0].append([r['files'][0][0][0], r['files'][0][0][1], 987])
         return r
-    common.binding_selftest('c19', 'C19_Data', recs, _corrupt)
+    common.binding_selftest('c19', 'C19_Data', [r for r in recs if r['id'] not in rejects], _corrupt)
     rc = v.finish()
     common.write_evidence(
         'C19', tier, 'model_checking',
